@@ -284,9 +284,33 @@ def gen_t(r, stats):
         ops = ["start"] + (["adv%d" % r.choice([1, 20])] if r.random() < 0.5 else []) + ["save"]
         pert = some_perts(False)              # saved while active (~3): rewrites are the known finding, see KNOWN_FINDING_CASES
         stats["t_active_partial"] += 1
+    elif c < 0.93 and np_ >= 2:
+        # two download rounds under virtual time: the second completion prunes the completed list (oldest entry older than
+        # 60 min -> keep 30 min); saves at any moment: with pieces in flight, after stop before close, during hashing
+        missing = sorted(r.sample(range(np_), r.randint(2, min(4, np_))))
+        first = sorted(r.sample(missing, r.randint(1, len(missing) - 1)))
+        gap = r.choice([10, 31, 59, 61, 61, 75, 120])
+        tail = r.choice([0, 0, 5, 14, 16])
+        ops = ["start", r.choice(["dl=", "dlhold="]) + ",".join(map(str, first))]
+        if ops[1].startswith("dlhold") or r.random() < 0.3:
+            ops.append("save")
+        if ops[1].startswith("dlhold") and r.random() < 0.7:
+            ops.append("drop")
+        ops += ["adv%d" % gap, "dl"] + (["adv%d" % tail] if tail else [])
+        ops += r.choice([["save"], ["stop", "save"], ["stop", "save", "close"], ["stop", "close", "openonly", "save", "finishcheck", "save"],
+                         ["save", "stop", "close", "openonly", "save"]])
+        second = [i for i in missing if i not in first]
+        cand = second if tail < 15 else []
+        if gap + tail < 15:
+            cand = missing
+        if "finishcheck" in ops or ops[-3:] == ["close", "openonly", "save"]:
+            pass
+        lose = sorted(r.sample(cand, r.randint(0, len(cand)))) if cand else []
+        stats["t_two_rounds"] += 1
     else:
         missing = sorted(r.sample(range(np_), r.randint(0, min(2, np_))))
-        ops = r.choice([["close", "save"], ["save", "start", "dl", "stop"], ["start", "stop", "save", "save"], []])
+        ops = r.choice([["close", "save"], ["save", "start", "dl", "stop"], ["start", "stop", "save", "save"], [],
+                        ["close", "openonly", "save"], ["close", "openonly", "save", "finishcheck", "save"]])
         pert = some_perts(False) if "start" in ops else some_perts(True)
         stats["t_other"] += 1
     return "T %d %s | %s | %s | %s%s" % (pl, " ".join(map(str, lens)), ",".join(map(str, missing)) or "-", " ".join(ops),
@@ -325,7 +349,7 @@ OPEN_DEFECT_WITNESSES = [
 def gen(seed, tier):
     r = random.Random(seed * 104729 + 10)
     keys = ["file_missing", "file_intact", "file_resized", "file_padding", "malformed", "honest", "corpus", "hand", "regression", "known_finding",
-            "t_stopped_complete", "t_download_then_save", "t_active_partial", "t_other"]
+            "t_stopped_complete", "t_download_then_save", "t_active_partial", "t_two_rounds", "t_other"]
     stats = {k: 0 for k in keys}
     cases = []
     cdir = os.path.join(os.path.dirname(os.path.dirname(os.path.abspath(__file__))), "corpus", "C10")
@@ -345,7 +369,7 @@ def gen(seed, tier):
         cases.append(gen_l(r, stats, malformed=False))
     for _ in range(n // 2):
         cases.append(gen_l(r, stats, malformed=True))
-    for _ in range(150 if tier == "quick" else 1500):
+    for _ in range(250 if tier == "quick" else 2500):
         cases.append(gen_t(r, stats))
     return cases, stats
 
